@@ -775,7 +775,7 @@ check_values(Ctx& ctx, std::set<std::string>& seen, const TypeInfo& t, const std
               const double fbl = std::ldexp(std::fabs(ql), -22) + std::ldexp(1., -23);
               if (std::fabs(st[k] - ql) > 0.5 + fbl)
                 cls = (ql > t.tmax + 0.5 + fbl || ql < t.tmin - 0.5 - fbl) ? "quotient-outside-type-range:"
-                      : std::fabs(ql) + 0.5 > 2147483647.                   ? "quotient-beyond-int-range-stored-wrong:"
+                      : std::fabs(ql) + 0.5 > 2147483647.                   ? "stored-integer-wrong-for-quotient-beyond-int-max:"
                                                                             : "stored-integer-wrong:";
             }
           strict(ctx, "scaled-int-value-beyond-half-step:" + cls + T,
